@@ -39,8 +39,8 @@ type Outcome struct {
 	Class  string // narrow name of the failing construct+condition (known-finding region)
 }
 
-func Pass(sig string) Outcome   { return Outcome{V: OK, Sig: sig} }
-func Skip() Outcome             { return Outcome{V: Unspec} }
+func Pass(sig string) Outcome { return Outcome{V: OK, Sig: sig} }
+func Skip() Outcome           { return Outcome{V: Unspec} }
 func Fail(class, format string, a ...any) Outcome {
 	return Outcome{V: Viol, Class: class, Detail: fmt.Sprintf(format, a...)}
 }
@@ -76,7 +76,7 @@ type Check struct {
 	// Budgets: internal deadlines after which the run stops with exhaustive=false.
 	QuickBudget, ThoroughBudget time.Duration
 	// StateKeys: when set, evidence reports states/transitions (model-checking keys).
-	States func() (states, transitions, traces int64)
+	States  func() (states, transitions, traces int64)
 	Workers int
 }
 
@@ -390,7 +390,9 @@ func run(c *Check, tier string) int {
 	all = append(all, preViol...)
 	for _, k := range classes {
 		vs := viols[k]
-		sort.Slice(vs, func(i, j int) bool { return len(vs[i].Case.ID) < len(vs[j].Case.ID) || (len(vs[i].Case.ID) == len(vs[j].Case.ID) && vs[i].Case.ID < vs[j].Case.ID) })
+		sort.Slice(vs, func(i, j int) bool {
+			return len(vs[i].Case.ID) < len(vs[j].Case.ID) || (len(vs[i].Case.ID) == len(vs[j].Case.ID) && vs[i].Case.ID < vs[j].Case.ID)
+		})
 		all = append(all, vs[0])
 	}
 	reported := 0
